@@ -70,6 +70,12 @@ func NewWorld() (*World, error) {
 		}
 		return nil, nil
 	}})
+	// (hard-sleep! ms) sleeps without looking at its context: a builtin that ignores cancellation
+	w.Env.Set(types.Symbol{Val: "hard-sleep!"}, types.Func{Fn: func(_ context.Context, a []types.MalType) (types.MalType, error) {
+		n, _ := a[0].(int)
+		time.Sleep(time.Duration(n) * time.Millisecond)
+		return nil, nil
+	}})
 	// (yield!) gives the processor away: widens the windows between the steps of an operation
 	w.Env.Set(types.Symbol{Val: "yield!"}, types.Func{Fn: func(_ context.Context, a []types.MalType) (types.MalType, error) {
 		runtime.Gosched()
